@@ -134,7 +134,6 @@ Fixpoint ws_loop (fuel : nat) (b : wblock) : res wblock :=
 
 Definition flush_word (b : wblock) (m : wsmode) : res wblock :=
   if word_is_empty (wword b) then Ok (set_word b (wword b) 0) else
-  let b := set_prew b false in
   do space_in_line <- usub 1 (wwidth b) (tlen_ (wline b));
   let space_needed := wslen b + wordlen b in
   if space_needed <=? space_in_line
@@ -179,18 +178,21 @@ Definition wb_into_lines (b : wblock) : res (list tline) :=
 Definition take_trailing_fragments (b : wblock) : wblock * list elem :=
   if word_is_empty (wword b) then (set_word b [] (wordlen b), wword b) else (b, []).
 
-(* tab loop: `while pos % 8 != 0 || !at_least_one_space` *)
-Fixpoint tab_loop (fuel : nat) (b : wblock) (t : tag) (pos : N) (one : bool) : res wblock :=
+(* tab loop: `while pos % 8 != 0 || !at_least_one_space`.  t = the local `tag`; tw = what `tag`
+   becomes when the tab crosses the width (wrap_tag in Pre mode, else unchanged); the boolean
+   result says whether that happened. *)
+Fixpoint tab_loop (fuel : nat) (b : wblock) (t tw : tag) (pos : N) (one : bool) (fl : bool)
+  : res (wblock * bool) :=
   if negb (pos mod 8 =? 0) || negb one then
     match fuel with
     | O => OutOfFuel
     | S f =>
-      if wwidth b =? 0 then Ok b else
+      if wwidth b =? 0 then Ok (b, fl) else
       if wwidth b <=? pos
-      then do b1 <- flush_line b; tab_loop f b1 t 0 one
-      else tab_loop f (set_line b (tl_push_char (wline b) (spacel L_space) t)) t (pos + 1) true
+      then do b1 <- flush_line b; tab_loop f b1 tw tw 0 one true
+      else tab_loop f (set_line b (tl_push_char (wline b) (spacel L_space) t)) t tw (pos + 1) true fl
     end
-  else Ok b.
+  else Ok (b, fl).
 
 (* One character of add_text.  usewrap = the local `tag` currently is wrap_tag. *)
 Definition add_char (m : wsmode) (main_tag wrap_tag : tag) (st : wblock * bool) (c : chr)
@@ -204,8 +206,9 @@ Definition add_char (m : wsmode) (main_tag wrap_tag : tag) (st : wblock * bool) 
         do b1 <- force_flush_line b;
         Ok (set_prew (set_space b1 None 0) false, false)
       else if cp c =? 9 then
-        do b1 <- tab_loop 40 b t (tlen_ (wline b) + wslen b) false;
-        Ok (b1, usewrap)
+        do r <- tab_loop 40 b t (if is_pre m then wrap_tag else t) (tlen_ (wline b) + wslen b) false false;
+        let sw := is_pre m && snd r in
+        Ok (if sw then set_prew (fst r) true else fst r, usewrap || sw)
       else
         match cw c with
         | None => Ok (b, usewrap)
@@ -216,7 +219,7 @@ Definition add_char (m : wsmode) (main_tag wrap_tag : tag) (st : wblock * bool) 
             do b2 <- flush_line b1;
             if do_wrap m
             then Ok (set_prew b2 false, usewrap)
-            else Ok (set_prew (set_space b2 (Some t) (wslen b2 + cwidth)) true, usewrap)
+            else Ok (set_prew (set_space b2 (Some wrap_tag) (wslen b2 + cwidth)) true, true)
           else Ok (set_space b (Some t) (wslen b + cwidth), usewrap)
         end
     else
